@@ -323,12 +323,14 @@ func parseArithmeticExpression
   loop 1 decreases len(remaining)
 
 func parseComparisonExpression
-  props C06
+  props C06 C13 C05
   option safety
   recgroup exprparse
   decreases 16 * len(tokens) + 6
   before parseArithmeticExpression arithmetic-binds-tighter-than-comparison: true
   ensures success-gives-a-node-and-consumes-input: result2 == nil ==> result0 != nil && len(result1) < len(tokens)
+  atreturn is-not-in-any-letter-case-is-the-two-word-operator: result2 == nil && len(remaining) >= 2 && strings.ToUpper(remaining[0]) == "IS" && strings.ToUpper(remaining[1]) == "NOT" ==> result0.Type == TypeOperator && result0.Value == "IS NOT" && result0.Left == left
+  atreturn a-comparison-operator-makes-an-operator-node-over-the-two-sides: result2 == nil && !(len(remaining) >= 2 && strings.ToUpper(remaining[0]) == "IS" && strings.ToUpper(remaining[1]) == "NOT") && len(remaining) > 0 && isComparisonOperator(remaining[0]) ==> result0.Type == TypeOperator && result0.Value == remaining[0] && result0.Left == left
 
 func parseAndExpression
   props C06
